@@ -6,6 +6,7 @@ require (
 	github.com/anishathalye/porcupine v1.3.0
 	github.com/coredns/coredns v1.10.0
 	github.com/facebookincubator/dns/dnsrocks v0.0.0
+	github.com/fsnotify/fsnotify v1.5.1
 	github.com/miekg/dns v1.1.50
 	github.com/repustate/go-cdb v0.0.0-20160430174706-6a418fad95e2
 	golang.org/x/net v0.34.0
@@ -22,7 +23,6 @@ require (
 	github.com/dnstap/golang-dnstap v0.4.0 // indirect
 	github.com/farsightsec/golang-framestream v0.3.0 // indirect
 	github.com/flynn/go-shlex v0.0.0-20150515145356-3f9db97f8568 // indirect
-	github.com/fsnotify/fsnotify v1.5.1 // indirect
 	github.com/golang/glog v1.0.0 // indirect
 	github.com/golang/mock v1.6.0 // indirect
 	github.com/golang/protobuf v1.5.2 // indirect
